@@ -338,7 +338,12 @@ func main() {
 			t0 = time.Now()
 		}
 
+		// dev aid: C07_STREAMS_ONLY=link performs only the link histories (link.go)
+		linkOnly := os.Getenv("C07_STREAMS_ONLY") == "link"
 		n := c.Scale(120, 4000)
+		if linkOnly {
+			n = 0
+		}
 		perms := c.Scale(3, 6)
 		for i := 0; i < n; i++ {
 			r := c.Rng.Fork()
@@ -385,16 +390,18 @@ func main() {
 
 		// ---- the source hash on real graphs (src.go)
 		lap("rule hash")
-		runSourceHash(c)
-		lap("source hash")
+		if !linkOnly {
+			runSourceHash(c)
+			lap("source hash")
 
-		// ---- require / provide, the memo of the path hasher under read faults, the xattr store (hasher.go)
-		runProvide(c)
-		lap("require/provide")
-		runMemo(c)
-		lap("memo")
-		runXattr(c)
-		lap("xattr")
+			// ---- require / provide, the memo of the path hasher under read faults, the xattr store (hasher.go)
+			runProvide(c)
+			lap("require/provide")
+			runMemo(c)
+			lap("memo")
+			runXattr(c)
+			lap("xattr")
+		}
 
 		// ---- end to end
 		plz := os.Getenv("VERIF_PLZ")
@@ -410,6 +417,9 @@ func main() {
 		// ---- what earlier invocations leave behind: filegroup links, in-place edits (link.go)
 		runLinkStream(c, plz, base)
 		lap("e2e link histories")
+		if linkOnly {
+			return
+		}
 		nrepos := c.Scale(2, 25)
 		for ri := 0; ri < nrepos; ri++ {
 			r := c.Rng.Fork()
